@@ -157,7 +157,9 @@ func (j *judge) network() {
 	bufWire, bufData, bufLay := wire, data, lay
 	// target, reader, writer: the plain reader gets the bytes WriteTo handed to a writer that is
 	// nothing but an io.Writer (no *bytes.Buffer, no other method)
-	variants := [][3]string{{"fresh", "bytes.Reader", "bytes.Buffer"}, {"fresh", "plain-reader", "plain-writer"}, {"used", "bytes.Reader", "bytes.Buffer"}}
+	// "short-reader": a source that never hands out more than 1021 bytes per Read (a socket, a bufio.Reader, a gzip
+	// stream): whatever reads the section data in large steps must cope with steps that come back short
+	variants := [][3]string{{"fresh", "bytes.Reader", "bytes.Buffer"}, {"fresh", "plain-reader", "plain-writer"}, {"used", "bytes.Reader", "bytes.Buffer"}, {"fresh", "short-reader", "bytes.Buffer"}}
 	if cs.leanNet {
 		// the network form does not carry the status: for the 2nd.. status value the chunk is the
 		// very same input, only the plain fresh read is repeated
@@ -206,6 +208,9 @@ func (j *judge) network() {
 			if reader == "bytes.Reader" {
 				br := bytes.NewReader(data)
 				r, rest = br, br.Len
+			} else if reader == "short-reader" {
+				sr := &shortReader{data: data, max: 1021}
+				r, rest = sr, func() int { return len(sr.data) - sr.pos }
 			} else {
 				pr := &engine.PlainReader{Data: data}
 				r, rest = pr, pr.Rest
@@ -218,6 +223,9 @@ func (j *judge) network() {
 			tag := "target=" + target
 			if tr[2] == "plain-writer" {
 				tag += ",writer=plain"
+			}
+			if reader == "short-reader" {
+				tag += ",reader=short"
 			}
 			if cs.Extra != "" && (p || rerr != nil) {
 				// e.g. a chunk without height maps is written with empty arrays the reader refuses
@@ -333,6 +341,29 @@ func (j *judge) usedSame(data []byte, wireLen int) {
 
 // plainWriter is an io.Writer and nothing else; it copies what it is given.
 type plainWriter struct{ b []byte }
+
+// shortReader: io.Reader only; at most max bytes per Read.
+type shortReader struct {
+	data []byte
+	pos  int
+	max  int
+}
+
+func (s *shortReader) Read(p []byte) (int, error) {
+	if len(p) == 0 {
+		return 0, nil
+	}
+	if s.pos >= len(s.data) {
+		return 0, io.EOF
+	}
+	n := len(p)
+	if n > s.max {
+		n = s.max
+	}
+	n = copy(p[:n], s.data[s.pos:])
+	s.pos += n
+	return n, nil
+}
 
 func (w *plainWriter) Write(p []byte) (int, error) {
 	w.b = append(w.b, p...)
